@@ -119,7 +119,7 @@ structure Run where
   kfCloseEarly : Nat := 0          -- known finding: Close returned while an in-flight Add still owed a trigger
   kfCloseStale : Nat := 0          -- known finding: `closed` stored by a worker whose exit check predates the Close
   panicked : Bool := false
-  recheckBeforeClose : List String := []   -- workers whose last exit check (load of trigger) came before any Close step
+  recheckBeforeClose : List String := []   -- workers whose most recent step came before any Close step
   staleClosed : Bool := false
 
 structure Tot where
@@ -214,7 +214,7 @@ def modelStep (r : Run) (ln : Nat) (actor site : String) (extra : List String) (
 def countOf (l : List Nat) (x : Nat) : Nat := l.count x
 
 /-- the spec, judged on the implementation's observations after a step of `actor` -/
-def oracleStep (r : Run) (ln : Nat) (actor site : String) (extra : List String) (o : Obs) : Run := Id.run do
+def oracleStep (r : Run) (ln : Nat) (actor _site : String) (extra : List String) (o : Obs) : Run := Id.run do
   let mut r := r
   -- safety: nothing invoked twice
   match o.inv.find? (fun x => countOf o.inv x > 1) with
@@ -227,12 +227,13 @@ def oracleStep (r : Run) (ln : Nat) (actor site : String) (extra : List String) 
         r := { r with adds := r.adds.insert actor { a with started := true, mustNot := r.closeReturned, beforeClose := ¬ r.closeBegan } }
     | none => pure ()
   if actor.startsWith "W" then
-    -- a worker's exit check is its load of trigger that is not the first step of its closure
-    if site = TPc.recheck.site then
-      r := { r with recheckBeforeClose := if r.closeBegan then r.recheckBeforeClose.filter (· ≠ actor)
-                                          else actor :: r.recheckBeforeClose }
-    if site = TPc.cas.site ∧ r.last.st = 1 ∧ o.st = 2 ∧ r.recheckBeforeClose.contains actor then
+    -- the step that moves `state` from closing to closed is the worker's final CAS; the step of the same worker
+    -- before it is its exit check.  If that check predates every Close step, the CAS acts on a stale observation
+    -- (known finding close-early-stale).  Label-independent on purpose.
+    if r.last.st = 1 ∧ o.st = 2 ∧ r.recheckBeforeClose.contains actor then
       r := { r with staleClosed := true }
+    r := { r with recheckBeforeClose := if r.closeBegan then r.recheckBeforeClose.filter (· ≠ actor)
+                                        else actor :: r.recheckBeforeClose.filter (· ≠ actor) }
   if actor.startsWith "C" then r := { r with closeBegan := true }
   if actor = "D" then r := { r with died := true }
   if kv extra "err" == some "1" then r := { r with died := true }
